@@ -130,6 +130,11 @@ func c09Collision(r *Rng, forced int) c09WS {
 			"c2.lua":  "---@class DupCls\n---@field two string\nlocal DupCls = {}\nreturn DupCls\n",
 			"use.lua": "---@type DupCls\nlocal v = {}\nprint(v.one, v.two)\n",
 		}
+		if r.Bool() {
+			// a third and fourth declaration: every warning then relates to several other declarations
+			files["c3.lua"] = "---@class DupCls\n---@field three boolean\nlocal DupCls = {}\nreturn DupCls\n"
+			files["sub/c4.lua"] = "\n---@class DupCls\nlocal DupCls = {}\nreturn DupCls\n"
+		}
 		return c09WS{"dup-annotation-class", files}
 	default: // duplicate global defined at different function levels
 		files := map[string]string{
